@@ -68,6 +68,42 @@ theorem mech_edit_ci (se : SEnv) (ids : Ids) (pathOf : Nat → Path) (st st' : S
     (fun sp hsp => nsOf_frame ids hf (pathOf sp) hsp) hL hinp
   exact this
 
+/-- the same with the `clear_obj` of the cells that go (the deleted cells and its derived copies in
+the sub spaces, `CL`) made explicit: every cells of a touched space is notified or was cleared;
+those that were not cleared and hold an input still exist. -/
+theorem mech_edit_cleared_ci (se : SEnv) (ids : Ids) (pathOf : Nat → Path) (st st' : St) (p : Path)
+    (hf : Frame st st' p) (CL L : List CellId) {s : Exec.St}
+    (h : CI (withStruct se ids pathOf st).toEnv lt s)
+    (hL : ∀ c, pathOf (se.home c) ∈ st.touched p → c ∈ L ∨ c ∈ CL)
+    (hinp : ∀ n ∈ s.inputs, pathOf (se.home n.1) ∈ st.touched p → n.1 ∉ CL →
+      (withStruct se ids pathOf st').toEnv.alive n.1 = true) :
+    CI (withStruct se ids pathOf st').toEnv lt
+      ((CL.foldl Exec.St.clearObj s).notifyAll (withStruct se ids pathOf st).toEnv L) := by
+  obtain ⟨h1, h2, h3⟩ := clearObjs_ci h CL
+  refine mech_edit_ci se ids pathOf st st' p hf L h1 ?_ ?_
+  · intro c hc
+    rcases hL c hc with hl | hl
+    · exact Or.inl hl
+    · exact Or.inr (h3 c hl)
+  · intro n hn hN
+    have hheld := h1.gi.inputsHeld n hn
+    have hgn := (h1.gi.heldNodes n hheld).1
+    have hnot : n.1 ∉ CL := fun hc => h3 n.1 hc _ hgn rfl
+    refine hinp n ?_ hN hnot
+    -- inputs only shrink under `clear_obj`
+    have hsub : ∀ (CL : List CellId) (s : Exec.St), ∀ m ∈ (CL.foldl Exec.St.clearObj s).inputs, m ∈ s.inputs := by
+      intro CL
+      induction CL with
+      | nil => intro s m hm; exact hm
+      | cons c0 CL ih =>
+        intro s m hm
+        simp only [List.foldl_cons] at hm
+        have := ih _ m hm
+        simp only [Exec.St.clearObj, Exec.St.dropValues, Exec.St.rgRemoveReferred, Exec.St.removeNodes,
+          List.mem_filter] at this
+        exact this.1
+    exact hsub CL s n hn
+
 theorem mech_newCells_ci (kw : List String) (se : SEnv) (ids : Ids) (pathOf : Nat → Path) (st st' : St)
     (p : Path) (name : String) (v : Nat) (hop : st.newCells kw p name v = some st') (L : List CellId)
     {s : Exec.St} (h : CI (withStruct se ids pathOf st).toEnv lt s)
